@@ -2,7 +2,7 @@
 From Coq Require Import String.
 From Coq Require Import NArith ZArith List Bool.
 From Coq.Strings Require Import Byte.
-From LV Require Import Lib.Bytes Lib.Decimal Model.C17 Proofs.C17_Int Proofs.C17_Bencode Proofs.C17_Msg Proofs.C17_Prefix Proofs.C17_Total Proofs.C17_Request Proofs.C17_LRU.
+From LV Require Import Lib.Bytes Lib.Decimal Model.C17 Proofs.C17_Int Proofs.C17_Bencode Proofs.C17_Msg Proofs.C17_Prefix Proofs.C17_Total Proofs.C17_Request Proofs.C17_LRU Proofs.C17_Size.
 Import ListNotations.
 Local Open Scope N_scope.
 
@@ -194,13 +194,14 @@ Proof. exact non_dictionary_dropped. Qed.
 Print Assumptions C17_non_dictionary_is_dropped.
 
 (* Decodes-but-invalid requests: for ALL byte strings, own ids, nesting bounds and whatever the abstract parts of
-   the node do (contact lookup, reply transport, serving of VALID requests, response/error handling): a datagram
-   that cannot be decoded, or that decodes to a request that is not a valid protocol request (unknown method,
-   wrong key / hash length, bad store arguments, our own id, ...), never changes the routing component (table,
-   queued additions/removals, ping queue) or the data store; at most one failure is recorded. *)
+   the node do (which addresses can be contacts, reply transport, serving of VALID requests, response/error
+   handling): a datagram that cannot be decoded, or that decodes to a request that is not a valid protocol request
+   (unknown method, wrong arity, wrong key / hash length, bad store arguments, our own id, ...), never changes the
+   routing component (table, queued additions/removals, ping queue) or the data store, and EXACTLY one failure is
+   recorded for the address the datagram came from (fix 037dcb4: not for a routing-table contact that merely
+   shares the node id, and also when that address cannot be a contact). *)
 Theorem C17_invalid_request_never_changes_routing :
-  forall (Routing Store Other Addr : Type)
-         (contact_of : node_state Routing Store Other Addr -> Addr -> rawmsg -> option Addr)
+  forall (Routing Store Other Addr : Type) (usable : Addr -> bool)
          (note_request : Other -> Addr -> Other) (error_reply : Other -> Addr -> rawmsg -> Other)
          (serve process_other : node_state Routing Store Other Addr -> Addr -> rawmsg -> node_state Routing Store Other Addr)
          own fuel st sender data,
@@ -208,10 +209,10 @@ Theorem C17_invalid_request_never_changes_routing :
   | inr _ => True
   | inl m => is_request m = true /\ request_valid own m = false
   end ->
-  let st' := node_receive Routing Store Other Addr contact_of note_request error_reply serve process_other
+  let st' := node_receive Routing Store Other Addr usable note_request error_reply serve process_other
                           own fuel st sender data in
   routing _ _ _ _ st' = routing _ _ _ _ st /\ store _ _ _ _ st' = store _ _ _ _ st
-  /\ (failures _ _ _ _ st' = failures _ _ _ _ st \/ exists c, failures _ _ _ _ st' = c :: failures _ _ _ _ st).
+  /\ failures _ _ _ _ st' = sender :: failures _ _ _ _ st.
 Proof. exact not_a_valid_request_leaves_routing. Qed.
 Print Assumptions C17_invalid_request_never_changes_routing.
 
@@ -294,6 +295,17 @@ Theorem C17_failure_table_bounded :
 Proof. exact report_failure_bounded. Qed.
 Print Assumptions C17_failure_table_bounded.
 
+(* "Every ... response ... encodes to a datagram": the largest reply the node produces -- the first findValue page
+   with K = 8 contacts (15-character addresses, 5-digit ports), 8 compact peer addresses, the token and a page count
+   below 10^6 -- is at most 1328 bytes, within MSG_SIZE_LIMIT = 1400, so KademliaProtocol._send does not refuse it. *)
+Theorem C17_largest_reply_fits : forall rpc node token key contacts peers pages,
+  length rpc = 20%nat -> length node = 48%nat -> length token = 48%nat -> length key = 48%nat ->
+  (length contacts <= 8)%nat -> Forall contact_small contacts ->
+  (length peers <= 8)%nat -> Forall (fun p => length p = 54%nat) peers -> (0 <= pages < 1000000)%Z ->
+  (length (encode_message (Response rpc node (find_value_payload token key contacts peers pages))) <= MSG_SIZE_LIMIT)%nat.
+Proof. exact largest_reply_within_limit. Qed.
+Print Assumptions C17_largest_reply_fits.
+
 (* every ASCII text is a valid error text *)
 Theorem C17_ascii_is_utf8 : forall s, Forall (fun b => N_of_byte b <= 127) s -> utf8_valid s = true.
 Proof. exact ascii_utf8. Qed.
@@ -361,6 +373,11 @@ Example C17_ex_deep : decode_datagram 5 (lit "llllllllll") = inr ERecursion. Pro
 Example C17_ex_id_list : decode_datagram 10
   (lit "d1:0i1e1:1l" ++ concat (repeat (lit "i0e") 20) ++ lit "e1:248:" ++ node48 ++ lit "1:34:ponge") = inr EValue.
 Proof. vm_compute. reflexivity. Qed.
+(* int() itself is lax (still used for the octets of an address); the datagram decoder no longer is (4abdbc1) *)
+Example C17_ex_strict1 : strict_int (lit "+1") = None. Proof. vm_compute. reflexivity. Qed.
+Example C17_ex_strict2 : strict_int (lit "0333") = None. Proof. vm_compute. reflexivity. Qed.
+Example C17_ex_strict3 : strict_int (lit "-0") = None. Proof. vm_compute. reflexivity. Qed.
+Example C17_ex_strict4 : strict_int (lit "-17") = Some (-17)%Z. Proof. vm_compute. reflexivity. Qed.
 Example C17_ex_lax_int1 : py_int_of_bytes (lit " +1_0 ") = Some 10%Z. Proof. vm_compute. reflexivity. Qed.
 Example C17_ex_lax_int2 : py_int_of_bytes (lit "1__0") = None. Proof. vm_compute. reflexivity. Qed.
 Example C17_ex_lax_int3 : py_int_of_bytes (lit "- 1") = None. Proof. vm_compute. reflexivity. Qed.
@@ -386,4 +403,21 @@ Proof. vm_compute. reflexivity. Qed.
 (* a full table of capacity 3: a fourth sender is recorded, the oldest record makes room; a known sender is updated *)
 Example C17_ex_full_failure_table : failures_run 3 [10; 11; 12; 13; 11]
   = [(12, (None, Some 3)); (13, (None, Some 4)); (11, (Some 2, Some 5))].
+Proof. vm_compute. reflexivity. Qed.
+(* the bound is reached (so a limit of 1232 bytes, as in the seeded change, refuses a legitimate reply) *)
+Example C17_ex_largest_reply_size :
+  length (encode_message (Response rpc20 node48
+            (find_value_payload node48 node48
+               (repeat (node48, repeat (byte_of_N 50) 15, 65535%Z) 8) (repeat (repeat (byte_of_N 1) 54) 8) 999999%Z)))
+  = 1328%nat.
+Proof. vm_compute. reflexivity. Qed.
+(* not bencode: underscores / sign / leading zero in an integer, bytes after the value (all served before 4abdbc1) *)
+Definition ping_bytes : bytes := encode_message (Request rpc20 node48 Ping).
+Example C17_ex_trailing_junk : decode_datagram 10 (ping_bytes ++ lit "garbage") = inr EDecode.
+Proof. vm_compute. reflexivity. Qed.
+Example C17_ex_lax_type : decode_datagram 10 (lit "di0ei+0ei1e20:" ++ rpc20 ++ lit "i2e48:" ++ node48 ++ lit "i3e4:pingi4eld15:protocolVersioni1eeee")
+  = inr EDecode.
+Proof. vm_compute. reflexivity. Qed.
+Example C17_ex_leading_zero_length : decode_datagram 10 (lit "di0ei0ei1e020:" ++ rpc20 ++ lit "i2e48:" ++ node48 ++ lit "i3e4:pingi4eld15:protocolVersioni1eeee")
+  = inr EDecode.
 Proof. vm_compute. reflexivity. Qed.
